@@ -69,6 +69,39 @@ func loopBodyMustPass(l rangeLoop, has func(*ssa.BasicBlock) bool) bool {
 	return true
 }
 
+// loopEarlyExit returns a block of the loop body that leaves the loop other than through the header's exit edge
+// (a break, or a return that is not an error exit); nil when every element is visited.
+func loopEarlyExit(l rangeLoop) *ssa.BasicBlock {
+	in := loopBlocks(l.Header)
+	for b := range in {
+		if b == l.Header {
+			continue
+		}
+		for _, s := range b.Succs {
+			if !in[s] && !FailsFrom(s) {
+				return b
+			}
+		}
+		if len(b.Succs) == 0 {
+			// a return inside the loop
+			if _, isRet := b.Instrs[len(b.Instrs)-1].(*ssa.Return); isRet && !FailsFrom(b) {
+				return b
+			}
+		}
+	}
+	// blocks dominated by the body that return without going back (not part of the natural loop)
+	fn := l.Header.Parent()
+	for _, b := range fn.Blocks {
+		if in[b] || !l.Body.Dominates(b) {
+			continue
+		}
+		if _, isRet := b.Instrs[len(b.Instrs)-1].(*ssa.Return); isRet && !FailsFrom(b) {
+			return b
+		}
+	}
+	return nil
+}
+
 func blockHasCall(b *ssa.BasicBlock, pred func(*ssa.Call) bool) bool {
 	for _, in := range b.Instrs {
 		if c, ok := in.(*ssa.Call); ok && pred(c) {
@@ -190,7 +223,12 @@ func persistRule(w *World, r *Report, rule string, a distAnchors) {
 	ok := loopBodyMustPass(l, func(b *ssa.BasicBlock) bool {
 		return blockHasCall(b, func(c *ssa.Call) bool { return strings.HasSuffix(callName(c.Common()), "keeper.Keeper.SetState") })
 	})
-	r.Check(ok, rule, "every iteration persists its state", w.Pos(fn.Pos()), "every path through the loop body passes SetState (success and failure branches alike)", "some path through the loop body skips SetState: that state's remains would be lost")
+	if ok {
+		if ex := loopEarlyExit(l); ex != nil {
+			ok = false
+		}
+	}
+	r.Check(ok, rule, "every iteration persists its state", w.Pos(fn.Pos()), "every path through the loop body passes SetState (success and failure branches alike) and the loop is never left early", "some path through the loop body skips SetState, or the loop is left early: that state's remains would be lost")
 	// the BeginBlocker passes the full, updated list
 	if bb := w.Func("x/cfedistributor.BeginBlocker"); bb != nil {
 		for _, s := range w.CG().Sites[bb] {
@@ -271,6 +309,7 @@ func checkC03(w *World, r *Report) {
 	}
 	r.Rule("C03.inflow", "P6", "main-source inflow = balance(DistributorMainAccount) minus the sum of ALL states' remains (the full state list, summed over every element)", 3)
 	r.Rule("C03.conserve", "P5,P6", "in StartDistributionProcess every value credited to a state other than the final remainder was subtracted from the remainder on the same path; the final remainder is credited exactly once, unless the primary destination is Main; shares are computed with MulDecTruncate only", 4)
+	r.Rule("C03.wrapper", "P4,P6", "= C14.wrapper: bank wrappers of the distributor pass amount, accounts and result through unchanged", 4)
 	r.Rule("C03.persist", "P5", "in the end-of-block loop every element of the state list reaches SetState on every path", 3)
 	r.Rule("C03.order", "P4,P6", "source-order independence: the Main source must see what earlier sources of the same sub-distributor swept into the main account", 1)
 	if !ro.checkFloors(r) {
@@ -282,6 +321,7 @@ func checkC03(w *World, r *Report) {
 	}
 	cg := w.CG()
 	mainAcc, _ := constOf(w, "x/cfedistributor/types", "DistributorMainAccount")
+	wrapperRule(w, r, "C03.wrapper")
 	// ---------- C03.inflow ----------
 	{
 		fn := a.prepMain
@@ -406,6 +446,9 @@ func checkC03(w *World, r *Report) {
 					return o.HasPath("State.Remains")
 				})
 			})
+		}
+		if okLoop && loopEarlyExit(loops[0]) != nil {
+			okLoop = false
 		}
 		r.Check(okLoop, "C03.inflow", "getRamainsSum adds Remains of every element", w.Pos(a.remSum.Pos()), "every iteration adds state.Remains", "some states are left out of the sum")
 	}
@@ -644,7 +687,7 @@ func checkC04(w *World, r *Report) {
 				}
 				return loadOfField(pc.Common().Args[0], "Share", nil) && pc.Common().Args[1] == ssa.Value(inflow)
 			}
-			ok := loopBodyMustPass(*shareLoop, func(b *ssa.BasicBlock) bool { return blockHasCall(b, isShareSub) })
+			ok := loopBodyMustPass(*shareLoop, func(b *ssa.BasicBlock) bool { return blockHasCall(b, isShareSub) }) && loopEarlyExit(*shareLoop) == nil
 			r.Check(ok, "C04.everyshare", "every share is taken from the remainder", w.Pos(shareLoop.Body.Instrs[0].Pos()), "every path through the loop body subtracts calculatePercentage(share.Share, inflow)",
 				"some iteration path (a share whose destination is the main account) skips the subtraction: that share is silently added to the primary destination")
 		}
@@ -708,6 +751,7 @@ func checkC14(w *World, r *Report) {
 	r.Undecided = []string{"'every destination ends up with what it would have received, up to one base unit' is numeric; only the structural conditions without which it cannot hold are decided"}
 	r.Rule("C14.success", "P5", "in each pay-out function state.Remains is stored only on the success edge of the bank call, with result #1 of the TruncateDecimal whose result #0 was sent; on the failure edge no field of the state is stored", 9)
 	r.Rule("C14.sweep", "P5", "in each source sweep the failure edge of the transfer returns an empty inflow, and the success path returns exactly the coins that were transferred", 4)
+	r.Rule("C14.wrapper", "P4,P6", "every bank transfer or burn in the distributor's block tree sits in a keeper wrapper that passes its amount and account parameters to the bank unchanged and returns the bank's result: callers reason about the amount they passed", 4)
 	r.Rule("C14.persist", "P5", "= C03.persist", 3)
 	r.Rule("C14.noerrorexit", "P5", "= C10.swallow: bank errors in the distributor's block tree are logged and never escalate to a panic or an error return", 5)
 	if !ro.checkFloors(r) {
@@ -850,6 +894,7 @@ func checkC14(w *World, r *Report) {
 		}
 		r.Check(toMain, "C14.sweep", funcName(fn)+": swept into the distributor main account", w.Pos(xfer.Instr.Pos()), "destination constant", fmt.Sprintf("sweep destination %v", names))
 	}
+	wrapperRule(w, r, "C14.wrapper")
 	persistRule(w, r, "C14.persist", a)
 	// ---------- C14.noerrorexit ----------
 	dreach := cg.Reach(ro.BLK["cfedistributor"])
@@ -903,4 +948,38 @@ func reachesPanic(b *ssa.BasicBlock) bool {
 		return false
 	}
 	return walk(b)
+}
+
+// wrapperRule: the distributor keeper's bank wrappers are transparent: what the caller asked to move is what the
+// bank is asked to move, and the bank's verdict is what the caller gets back.
+func wrapperRule(w *World, r *Report, rule string) {
+	cg := w.CG()
+	ro := w.Roles()
+	for _, s := range cg.SitesIn(cg.Reach(ro.BLK["cfedistributor"])) {
+		at := cg.Atom(s)
+		if at != BankMove && at != BankBurn {
+			continue
+		}
+		fn := s.Caller
+		amt := coinsArg(s)
+		_, isParam := amt.(*ssa.Parameter)
+		okRet := true
+		for _, ret := range Returns(fn) {
+			vs := retVals(ret)
+			if len(vs) != 1 || vs[0] != siteValue(s) {
+				okRet = false
+			}
+		}
+		okArgs := true
+		for _, a := range s.Args() {
+			if a == amt {
+				continue
+			}
+			if _, ok := a.(*ssa.Parameter); !ok {
+				okArgs = false
+			}
+		}
+		r.Check(isParam && okRet && okArgs, rule, funcName(fn)+": transparent bank wrapper", w.Pos(s.Instr.Pos()),
+			"amount, accounts and result are passed through unchanged", "the wrapper changes the amount or accounts, or hides the bank's result: its callers book the amount they asked for on a nil result")
+	}
 }
